@@ -704,12 +704,21 @@ def flm(rows) -> np.ndarray:
 class Impl:
     """Builds the real objects of a tree and observes them."""
 
-    def __init__(self, tree: dict, n: int) -> None:
-        self.guard = Guard()
+    def __init__(self, tree: dict, n: int, reuse: "Impl | None" = None) -> None:
+        """`reuse`: a previous Impl of the same tree description whose *leaf objects* (user, linear and
+        quadratic functions) are kept: only the operations above them are built again (a tree built
+        after the parameters of a leaf were edited)."""
+        self.guard = Guard() if reuse is None else reuse.guard
+        self.leaf_objs: dict[int, Any] = {} if reuse is None else reuse.leaf_objs  # id(leaf node) -> object
         self.objects: list[tuple[dict, Any]] = []  # (node, MDOFunction)
         self.snapshots: list[tuple[str, Any, np.ndarray]] = []  # (label, getter, pristine copy)
         self._count = 0
         self.root = self.build(tree, n)
+
+    def resnap(self) -> None:
+        """Take the pristine copies again (after a deliberate edit of a public parameter)."""
+        self.snapshots = [(label, getter, np.array(getter(), dtype=float, copy=True)) for label, getter, _ in self.snapshots]
+        self.guard.reset()
 
     def _snap(self, label: str, getter) -> None:
         self.snapshots.append((label, getter, np.array(getter(), dtype=float, copy=True)))
@@ -739,7 +748,9 @@ class Impl:
             return fl(node["v"])
         if op == "arr":
             return self._given(f"array operand {tag}", fla(node["v"]))
-        if op == "poly":
+        if op in ("poly", "lin", "quad") and id(node) in self.leaf_objs:
+            obj = self.leaf_objs[id(node)]
+        elif op == "poly":
             leaf = PolyLeaf(node, tag, self.guard)
             obj = MDOFunction(leaf.func, f"p{self._count}", jac=leaf.jac)
         elif op == "lin":
@@ -825,6 +836,8 @@ class Impl:
                 raise IllShaped(kind)
         else:
             raise IllShaped(op)
+        if op in ("poly", "lin", "quad"):
+            self.leaf_objs[id(node)] = obj
         self.objects.append((node, obj))
         # public coefficient arrays of linear / quadratic objects are operand values too
         if isinstance(obj, MDOLinearFunction):
@@ -871,6 +884,8 @@ def _poly_tok(p) -> str:
 
 def tree_tokens(node: dict, n: int) -> list[str]:
     op = node["op"]
+    if "uref" in node:  # a leaf registered as an object of a session (Driver/C10.lean `U <id>`)
+        return ["U", str(node["uref"])]
     if op == "poly":
         return ["P", str(len(node["polys"])), *[_poly_tok(p) for p in node["polys"]]]
     if op == "lin":
